@@ -130,6 +130,49 @@ pub fn run(ctx: &mut Ctx) {
                     "settings": {"dialect": dname, "linters": linters}})).unwrap();
             }
         }
+        "hist" => {
+            // histories for one long-lived document: fixed settings, texts assembled from a small pool of
+            // clauses so that the server's per-document linter answers most chunks from its caches
+            let mut merged = MergedDictionary::new();
+            merged.add_dictionary(fst.clone());
+            merged.add_dictionary(Arc::new(MutableDictionary::new()));
+            let merged = Arc::new(merged);
+            let probe = LintGroup::new_curated(fst.clone(), Dialect::American);
+            let keys: Vec<String> = probe.iter_keys().map(|s| s.to_string()).collect();
+            let dialects = [(Dialect::American, "American"), (Dialect::British, "British"), (Dialect::Australian, "Australian"), (Dialect::Canadian, "Canadian")];
+            for g in 0..n {
+                let mut r = Rng(rng.next());
+                let fe = if g % 2 == 0 { Fe::Plain } else { Fe::Md };
+                let (dialect, dname) = *r.pick(&dialects);
+                let mut linters = serde_json::Map::new();
+                for _ in 0..r.range(0, 6) {
+                    linters.insert(r.pick(&keys).clone(), json!(r.chance(1, 2)));
+                }
+                let cfg: harper_core::linting::LintGroupConfig = serde_json::from_value(serde_json::Value::Object(linters.clone())).expect("config");
+                let pool: Vec<String> = (0..r.range(4, 9)).map(|_| if r.chance(1, 5) { gen_clause(&mut r, &corpus, 5, 3).replace('\n', " ") } else { r.pick(&corpus.sentences).replace('\n', " ") }).collect();
+                let parser = fe.wrapped(Wrap::None, &fst);
+                let mut steps = Vec::new();
+                for _ in 0..r.range(10, 30) {
+                    let mut text = String::new();
+                    for k in 0..r.range(1, 5) {
+                        if k > 0 {
+                            text.push_str(r.pick_str(&[" ", "\n\n", "\n", "  "]));
+                        }
+                        text.push_str(r.pick(&pool).as_str());
+                    }
+                    let res = guarded(|| {
+                        let doc = Document::new(&text, &parser, &merged);
+                        let mut lg = LintGroup::new_curated(merged.clone(), dialect).with_lint_config(cfg.clone());
+                        lg.config.fill_with_curated();
+                        lg.lint(&doc)
+                    });
+                    let Ok(lints) = res else { continue };
+                    let expected: Vec<_> = lints.iter().map(|l| json!([l.span.start, l.span.end, l.message])).collect();
+                    steps.push(json!({"text": text, "expected": expected}));
+                }
+                writeln!(f, "{}", json!({"fam": "hist", "fe": fe.name(), "lang": lang_id(fe, &mut r), "settings": {"dialect": dname, "linters": linters}, "steps": steps})).unwrap();
+            }
+        }
         _ => {
             let mut ids: Vec<String> = LANGS.iter().map(|s| s.to_string()).collect();
             for s in ["plaintext", "mail", "text", "markdown", "git-commit", "gitcommit", "html", "typst", "lhaskell", "literate haskell"] {
